@@ -262,19 +262,23 @@ def check_es(rs: dict) -> tuple[list[tuple[str, str, str, Any]], dict]:
             continue
         fam = _family(name)
         synthetic = [k for k in (at or []) if k in ("continue", "break_loop")]
-        same_family_here = [e for e in tm.elements if pos in e["positions"] and _family(e["label"][0]) == fam and fam not in ("plain-op",)]
+        same_family_here = [e for e in tm.elements if pos in e["positions"] and _cfamily(e["label"][0]) == _cfamily(name) and fam not in ("plain-op",)]
         if not cands and same_family_here:
             # the op is printed in a form that denotes another op of the same family (e.g. flag_CalcValue(=) as `$x = 1`): a C02 finding,
             # the statement is nevertheless the one printed for this op
             good[off] = same_family_here[0]["label"]
             stats["lossy_print_accepted"] = stats.get("lossy_print_accepted", 0) + 1
             continue
-        if synthetic:
-            out.append((CONTRACT_P, f"es:entry-points-at-synthetic-{synthetic[0]}-statement-instead-of-the-ops-statement:{fam}", f"{name}@{off} -> {pos}: there starts {at}; the op's own statement starts at {sorted(p for e in cands for p in e['positions'])}", text))
+        own = sorted(p for e in cands for p in e["positions"])
+        if cands and synthetic:
+            out.append((CONTRACT_P, f"es:entry-overwritten-by-synthetic-{synthetic[0]}-statement", f"{name}@{off} -> {pos}: there starts {at}; the op's own statement starts at {own}", text))
+        elif cands and any("elseif" in tm.stmt_at.get(p, []) and p[0] == pos[0] - 1 for p in own):
+            out.append((CONTRACT_P, "es:elseif-entry-points-to-the-line-after-the-header", f"{name}@{off} -> {pos} but `elseif` is at {[p for p in own if 'elseif' in tm.stmt_at.get(p, [])]}; at {pos}: {at or _line(lines, pos)!r}", text))
         elif cands:
-            allpos = sorted(p for e in cands for p in e["positions"])
             what = ",".join(sorted({e["what"] for e in cands}))
-            out.append((CONTRACT_P, f"es:entry-misses-its-statement:{fam}:{delta_class(pos, allpos)}:{_enclosing(tm, cands)}", f"{name}@{off} -> {pos} but its statement ({what}) starts at {allpos}; at {pos}: {at or _line(lines, pos)!r}", text))
+            there = _kinds(at) if at else _where(lines, pos)
+            rel = "later-line" if all(pos[0] > p[0] for p in own) else ("earlier-line" if all(pos[0] < p[0] for p in own) else delta_class(pos, own))
+            out.append((CONTRACT_P, f"es:entry-misses-its-statement:{rel}:points-at({there})", f"{name}@{off} -> {pos} but its statement ({what}) starts at {own}; at {pos}: {at or _line(lines, pos)!r}", text))
         else:
             if at:
                 out.append((CONTRACT_P, f"es:entry-of-op-that-is-not-printed-points-at({_kinds(at)}):{fam}", f"{name}@{off} -> {pos}: no statement of the text denotes this op; there starts {at}", text))
@@ -282,8 +286,8 @@ def check_es(rs: dict) -> tuple[list[tuple[str, str, str, Any]], dict]:
                 out.append((CONTRACT_P, f"es:entry-of-op-that-is-not-printed-points-at-no-statement({_where(lines, pos)}):{fam}", f"{name}@{off} -> {pos}: {_line(lines, pos)!r}", text))
     # (E)
     for lab, els in tm.by_label.items():
-        if len(els) != 1 or input_label_count.get(lab, 0) != 1 or els[0]["shared"]:
-            continue  # (a condition after `||` is not a statement of its own)
+        if len(els) != 1 or input_label_count.get(lab, 0) != 1 or els[0]["shared"] or lab == ("Return", ()):
+            continue  # a condition after `||` is not a statement of its own; a `return;` may be the decompiler's own closing statement
         off = next(o for o, op in by_off.items() if op.op_code.name != "Jump" and op_label(op) == lab)
         if off not in entries:
             e = els[0]
@@ -297,14 +301,16 @@ def check_es(rs: dict) -> tuple[list[tuple[str, str, str, Any]], dict]:
                 for cop in r:
                     m = comp.source_map.get_op_line_and_col(cop.offset)
                     if m is not None:
-                        by_label_lines.setdefault(compiled_op_label(cop), set()).add(m.line)
+                        cl = compiled_op_label(cop)
+                        by_label_lines.setdefault(cl, set()).add(m.line)
+                        by_label_lines.setdefault((_cfamily(cl[0]), cl[1]), set()).add(m.line)
             for off, lab in good.items():
                 stats["compile_entries"] += 1
-                ls = by_label_lines.get(lab)
+                ls = by_label_lines.get(lab) or by_label_lines.get((_cfamily(lab[0]), lab[1]))
                 if ls is None:
                     out.append((CONTRACT_C, f"es:recompiled-op-missing-from-compile-map:{_family(lab[0])}", f"{lab[0]}@{off}: no compiled op with this label has a compile-time map entry", text))
                 elif entries[off][0] not in ls:
-                    out.append((CONTRACT_C, f"es:recompiled-op-on-another-line:{_family(lab[0])}", f"{lab[0]}@{off}: decompile map says line {entries[off][0]}, compile map says {sorted(ls)}", text))
+                    out.append((CONTRACT_C, f"es:recompiled-op-on-another-line:{'message-switch-case' if lab[0] in ('CaseText', 'DefaultText') else _family(lab[0])}", f"{lab[0]}@{off}: decompile map says line {entries[off][0]}, compile map says {sorted(ls)}", text))
     return [(c, s + (f":{shape}" if s.startswith("es:key") else ""), d, t) for c, s, d, t in out], stats
 
 
@@ -312,6 +318,11 @@ def _family(name: str) -> str:
     from props.C02 import _family as fam
 
     return fam(name)
+
+
+def _cfamily(name: str) -> str:
+    f = _family(name)
+    return "Case*" if f == "CaseScenario" else f
 
 
 def _kinds(at: list) -> str:
